@@ -261,19 +261,28 @@ func dfs2Scenario(i int) *scenario {
 
 func runDFS2(e *ev.Env, w *witnesses) {
 	e.Cases("dfs2", e.N(32, 256), func(c *ev.Case) {
-		sc := dfs2Scenario(mustIndex(c.ID))
+		i := mustIndex(c.ID)
+		sc := dfs2Scenario(i)
+		// Two requests with different keys never wait for each other: their 12870 interleavings
+		// are enumerated completely only for the first variants (thorough), otherwise capped.
+		max := 0
+		if len(sc.Reqs) == 2 && sc.Reqs[0].keyed() && sc.Reqs[1].keyed() && sc.Reqs[0].Key != sc.Reqs[1].Key && (e.Quick() || i >= 32) {
+			max = 1000
+		}
 		var t tally
-		n, exhausted := sched.DFS(0, func(ch sched.Chooser) *sched.Outcome {
+		n, exhausted := sched.DFS(max, func(ch sched.Chooser) *sched.Outcome {
 			return w.one(c, sc, faultPlan{}, judgeOpts{doubleCtx: "concurrent-duplicates", linz: true}, ch, &t)
 		})
 		t.flush(e, "dfs2")
 		e.Stat("dfs2.cases", 1)
 		if exhausted {
 			e.Stat("dfs2.cases_exhausted", 1)
+		} else {
+			e.Stat("dfs2.cases_capped_distinct_keys", 1)
 		}
 		e.StatMax("dfs2.max_schedules_per_case", int64(n))
 	})
-	e.Note("dfs2", "every schedule of 2 concurrent requests at the boundaries start, storage.get (fast path), lock, storage.get (re-check), handler.entry, handler.exit, storage.set, unlock is enumerated per case (sched.DFS, no bound); exhaustive iff dfs2.cases_exhausted == dfs2.cases")
+	e.Note("dfs2", "every schedule of 2 concurrent requests at the boundaries start, storage.get (fast path), lock, storage.get (re-check), handler.entry, handler.exit, storage.set, unlock is enumerated per case (sched.DFS, no bound) for duplicates, duplicate+keyless, duplicate+safe-method; pairs with two DIFFERENT keys (12870 schedules, no interaction) are capped at 1000 schedules except thorough cases 0-31; exhaustive cases = dfs2.cases_exhausted")
 }
 
 var triples = [][]reqSpec{
@@ -286,36 +295,45 @@ var triples = [][]reqSpec{
 
 const prefixDepth = 3
 
-func dfs3Scenario(v int) *scenario {
-	// variants: 0..4 plain triples, 5 = three duplicates with the first execution failing,
-	// 6 = three duplicates with KeepResponseHeaders, 7 = two duplicates + other key, failfirst
-	switch {
-	case v < 5:
-		return &scenario{Reqs: triples[v], ShapeBase: v}
-	case v == 5:
-		return &scenario{Reqs: triples[0], ShapeBase: 1, FailFirst: true}
-	case v == 6:
-		return &scenario{Reqs: triples[0], ShapeBase: 3, Keep: keepList}
-	default:
-		return &scenario{Reqs: triples[1], ShapeBase: 6, FailFirst: true, Keep: keepList}
+type dfs3Variant struct {
+	sc  scenario
+	cap int // 0 = exhaustive
+}
+
+// Measured sizes (schedules per scenario): three duplicates 342k, three duplicates with the first
+// execution failing 724k, two duplicates + keyless / safe-method 345k. A third request with its
+// own key multiplies instead of interacting (two duplicates + other key: > 30M) and is only
+// sampled (capped subtrees here, random walks in walk3/walk4).
+func dfs3Variants(quick bool) []dfs3Variant {
+	if quick {
+		return []dfs3Variant{
+			{scenario{Reqs: triples[0]}, 120},
+			{scenario{Reqs: triples[0], ShapeBase: 1, FailFirst: true}, 120},
+		}
+	}
+	return []dfs3Variant{
+		{scenario{Reqs: triples[0]}, 0},
+		{scenario{Reqs: triples[0], ShapeBase: 1, FailFirst: true}, 0},
+		{scenario{Reqs: triples[0], ShapeBase: 3, Keep: keepList}, 0},
+		{scenario{Reqs: triples[2], ShapeBase: 2}, 0},
+		{scenario{Reqs: triples[3], ShapeBase: 4}, 0},
+		{scenario{Reqs: triples[1], ShapeBase: 5}, 4000},
+		{scenario{Reqs: triples[1], ShapeBase: 6, FailFirst: true, Keep: keepList}, 4000},
+		{scenario{Reqs: triples[4], ShapeBase: 7}, 1500},
 	}
 }
 
 func runDFS3(e *ev.Env, w *witnesses) {
 	nprefix := 27
-	variants := e.N(2, 8)
-	cap3 := e.N(120, 0)
-	e.Cases("dfs3", variants*nprefix, func(c *ev.Case) {
+	vs := dfs3Variants(e.Quick())
+	e.Cases("dfs3", len(vs)*nprefix, func(c *ev.Case) {
 		i := mustIndex(c.ID)
-		v, p := i/nprefix, i%nprefix
-		if e.Quick() {
-			v = []int{0, 5}[v]
-		}
-		sc := dfs3Scenario(v)
+		v, p := vs[i/nprefix], i%nprefix
+		sc := v.sc
 		fixed := []int{p / 9, (p / 3) % 3, p % 3}
 		var t tally
-		n, exhausted, valid := dfsPrefix(fixed, cap3, func(ch sched.Chooser) *sched.Outcome {
-			return w.one(c, sc, faultPlan{}, judgeOpts{doubleCtx: "concurrent-duplicates", linz: true}, ch, &t)
+		n, exhausted, valid := dfsPrefix(fixed, v.cap, func(ch sched.Chooser) *sched.Outcome {
+			return w.one(c, &sc, faultPlan{}, judgeOpts{doubleCtx: "concurrent-duplicates", linz: true}, ch, &t)
 		})
 		t.flush(e, "dfs3")
 		e.Stat("dfs3.subtrees", 1)
@@ -325,9 +343,12 @@ func runDFS3(e *ev.Env, w *witnesses) {
 		if exhausted && valid {
 			e.Stat("dfs3.subtrees_exhausted", 1)
 		}
+		if v.cap > 0 {
+			e.Stat("dfs3.subtrees_capped_by_design", 1)
+		}
 		e.StatMax("dfs3.max_schedules_per_subtree", int64(n))
 	})
-	e.Note("dfs3", fmt.Sprintf("3 concurrent requests; each scenario's schedule tree is split into 27 subtrees by its first %d choices (always 3 options each), one case per subtree; quick tier caps each subtree at 120 schedules (not exhaustive), thorough tier has no cap: exhaustive iff dfs3.subtrees_exhausted == dfs3.subtrees", prefixDepth))
+	e.Note("dfs3", fmt.Sprintf("3 concurrent requests; each scenario's schedule tree is split into 27 subtrees by its first %d choices (always 3 options each), one case per subtree. quick: 2 scenarios, every subtree capped at 120 schedules (NOT exhaustive). thorough: 5 scenarios exhaustive (three duplicates; three duplicates, first execution fails; three duplicates with KeepResponseHeaders; two duplicates + keyless; two duplicates + safe method with the key) and 3 scenarios with an independent other-key request capped at 4000/4000/1500 per subtree (their trees have > 30M schedules): exhaustive iff dfs3.subtrees_exhausted == dfs3.subtrees - dfs3.subtrees_capped_by_design", prefixDepth))
 }
 
 // genScenario draws a scenario with n concurrent requests, at least two duplicates of key A.
